@@ -13,6 +13,7 @@
 mod common;
 mod c03;
 mod c04;
+mod c05;
 mod c06;
 mod c11;
 mod c12;
@@ -53,6 +54,7 @@ fn main() {
     match suite.as_str() {
         "c03" => c03::run(&mut ctx),
         "c04" => c04::run(&mut ctx),
+        "c05" => c05::run(&mut ctx),
         "c06" => c06::run(&mut ctx),
         "c11" => c11::run(&mut ctx),
         "c12" => c12::run(&mut ctx),
